@@ -532,6 +532,15 @@ def nodal_checks(ctx, R, rng, t, q_rod, u_rod, label):
     for i in range(nn):
         xi = float(xis[i])
         xi_arg = (xi,) if rng.random() < 0.2 else xi
+        # at a node shared by two elements the basis may be requested with either element given explicitly (the surface
+        # export and eval_stresses(..., el=...) do so); such a request must not change what the element-free query returns
+        x_el = xi * rod.nelement
+        if rod.nelement > 1 and 0 < xi < 1 and abs(x_el - round(x_el)) < 1e-12 and rng.random() < 0.6:
+            right = int(round(x_el))
+            for el in ((right - 1, right) if rng.random() < 0.5 else (right, right - 1)):
+                rod.basis_functions_r(xi, el)
+                rod.basis_functions_p(xi, el)
+            ctx.cls("nodal:explicit_element_queries_before")
         elq = np.asarray(rod.local_qDOF_P(xi_arg))
         elu = np.asarray(rod.local_uDOF_P(xi_arg))
         qe, ue = q_rod[elq].copy(), u_rod[elu].copy()
